@@ -177,3 +177,91 @@ def run_repack(prog, prefix="mpq_", rule="R-REPACK"):
                                                     fn, "rows" if "rows" in fn else "columns", fld.split("::")[1], "row" if "rows" in fn else "column")))
         res.floor("%s: arrays of the table" % fn, len(fields), 3)
     return res
+
+
+# ------------------------------------------------------------------ R-REMAP
+# persistent arrays of the problem whose *elements* are indices into a space (the value classes R-IDXCLASS types loads with):
+# (field path suffix, space)
+def _index_holders():
+    from .idxclass import VALUE_CLASS
+    out = []
+    for fld, cls in sorted(VALUE_CLASS.items()):
+        rec = fld.split("::")[0]
+        if rec == "ILLlpdata":
+            out.append(((fld,), cls))
+        elif rec == "ILLmatrix":
+            out.append((("ILLlpdata::A", fld), cls))
+    out.append((("ILLlpdata::sos", "ILLmatrix::matind"), STRUCT))     # the SOS sets hold structural column numbers (see idxclass.arr_info)
+    return out
+
+
+def run_remap(prog, E=None, prefix="mpq_", rule="R-REMAP", floor=3):
+    """a function that lowers a dimension of the problem (nrows / nstruct / ncols decremented relative to its old value) renumbers the
+    members of that space; every persistent array of the problem that *holds* numbers of that space (column numbers in structmap and
+    rowmap, row numbers in the matrix's matind, structural column numbers in the SOS sets) must be rewritten by the function or by one
+    of its callees (effect summaries), otherwise its entries keep naming the old numbering."""
+    from ..effects import Effects
+    from .idx import DIMS, _suffix_lookup
+    E = E or Effects(prog)
+    res = RuleResult(rule, "a function that lowers nrows / nstruct / ncols of the problem rewrites (itself or through a callee) every array of the "
+                           "problem that holds numbers of the shrunk space")
+    holders = _index_holders()
+
+    def norm(x):
+        for pre in ("mpq_", "dbl_", "mpf_"):
+            if x.startswith(pre):
+                return x[len(pre):]
+        return x
+
+    def matches(fp, suffix):
+        fpn = [norm(x) for x in fp]
+        if not fpn or fpn[-1] != suffix[-1]:
+            return False
+        if len(suffix) == 2:
+            return suffix[0] in fpn[:-1]
+        return True
+    ninst = 0
+    funcs = [f for f in prog.funcs.values() if f.live is not None and f.name.startswith(prefix) and f.unit.endswith("lib_mpq.c")]
+    for f in sorted(funcs, key=lambda x: x.key):
+        shrunk = {}
+        for b, i, e in f.elements():
+            t = op = None
+            if e[0] == "A" and e[1][1] == "-=":
+                t = e[1][2]
+            elif e[0] == "U" and e[1][1] in ("--", "p--", "--p", "post--", "pre--"):
+                t = e[1][2]
+            if t is None:
+                continue
+            t0 = strip(t)
+            if isinstance(t0, list) and t0 and t0[0] == "m" and norm(t0[2]).startswith("ILLlpdata::"):
+                c = _suffix_lookup(DIMS, t0[2])
+                if c:
+                    shrunk.setdefault(c, e[2] if e[0] == "A" else e[2])
+        if not shrunk:
+            continue
+        written = set()
+        for (j, fp, loc, how, bid, idx) in E.direct_writes(f):
+            written.add(tuple(fp))
+        for ci in E.callinfo.get(f.key, ()):
+            if ci[0] is None:
+                continue
+            for (j, fp) in E.call_writes(f, ci):
+                written.add(tuple(fp))
+        for cls, loc in sorted(shrunk.items()):
+            for suffix, vcls in holders:
+                if vcls != cls:
+                    continue
+                ninst += 1
+                res.obligations += 1
+                res.nontrivial += 1
+                name = ".".join(x.split("::")[1] for x in suffix)
+                if any(matches(fp, suffix) for fp in written):
+                    res.sample({"function": f.name, "space": cls, "array": name, "verdict": "rewritten"}, limit=12)
+                else:
+                    res.violations.append(Violation(rule, "%s|%s keeps the old %s numbers" % (f.name.replace(prefix, ""), name, cls), f.name, short_loc(loc),
+                                                    "the function lowers the number of %s members of the problem, and the entries of %s are %s numbers, but neither "
+                                                    "the function nor any of its callees stores into that array: its entries keep naming the old numbering" % (
+                                                        cls, name, cls)))
+    res.counts["(shrinking function, index-holding array) pairs"] = ninst
+    res.floor("(shrinking function, index-holding array) pairs", ninst, floor)
+    return res
